@@ -108,15 +108,19 @@ class Kit:
             self.method(sink, "bind", prefix, ns)
         return sink
 
-    def generator(self, items: list, label: str = "input") -> GenObj:
+    def generator(self, items: list, label: str = "input", on_pull: Any = None) -> GenObj:
         """A generator object yielding the given items (what callers pass as 'Generator[...]')."""
         it = self.it
 
         def host():
             for i, x in enumerate(items):
                 it.emit("pull", label=label, index=i, got=True)
+                if on_pull is not None:
+                    on_pull(i, True)
                 yield x
             it.emit("pull", label=label, index=len(items), got=False)
+            if on_pull is not None:
+                on_pull(len(items), False)
 
         return GenObj(host(), label)
 
